@@ -182,6 +182,7 @@ fn main() {
         return;
     }
     if sub == "expr" {
+        drop(out);
         // the recursive-descent parser has no depth limit (findings/C15.json parser-stack-overflow): give it room
         let h = std::thread::Builder::new()
             .stack_size(1 << 30)
